@@ -377,6 +377,38 @@ def extra_c09_ops(prop, tier, seed):
     return res
 
 
+def extra_c04_mirror(prop, tier, seed):
+    """Bounded stand-in (labelled, never counted) for C04 on the REAL validators: JSON verdict == CBOR verdict
+    for every JSON-expressible value out of 12 x ~320 schemas (types, two-way choices, .and/.within,
+    comparison controls, prelude names, ranges, .size/.regexp, small arrays and maps).  Instances that
+    disagree on the unchanged tree are recorded in known_instances_C04.json (known finding F21)."""
+    out, err = _replay(['u5d', 'findmirror'], timeout=3000)
+    if out is None:
+        raise engine.Undecided('replay-failed', err)
+    known = set(json.load(open(os.path.join(engine.VERIF, 'known_instances_C04.json'))))
+    failing = out.get('failing', [])
+    new = [f for f in failing if f not in known]
+    res = {'violations': [], 'bounded': [{'check': 'JSON verdict == CBOR verdict on the same value (real validators)',
+                                          'bound': '~320 schemas x 12 JSON-expressible values', 'comparisons': out.get('tried'),
+                                          'disagreeing_instances': len(failing), 'recorded_as_known_F21': len(failing) - len(new), 'new': len(new)}]}
+    if failing and len(new) < len(failing):
+        w = {'id': 'mirror##t = int##18446744073709551615'}
+        res['violations'].append({
+            'unit': 'U5d', 'label': 'mirror:recorded-instances', 'fn': 'JSONValidator / CBORValidator',
+            'message': '%d recorded JSON/CBOR disagreements still occur' % (len(failing) - len(new)), 'clause': [], 'engine': 'replay',
+            'verifier_output': out.get('first', ''),
+            'fixed_witness': {'found': True, 'witness': w, 'real': out.get('first'), 'replay_args': ['u5d', 'replay', json.dumps(w)]}})
+    if new:
+        w = {'id': new[0]}
+        res['violations'].append({
+            'unit': 'U5d', 'label': 'mirror:json-cbor-same-verdict', 'fn': 'validators',
+            'message': '%d JSON/CBOR disagreements that are NOT recorded (first: %s)' % (len(new), new[0]), 'clause': [], 'engine': 'replay',
+            'verifier_output': json.dumps(new[:20]),
+            'fixed_witness': {'found': True, 'witness': w, 'real': 'JSON and CBOR verdicts differ: ' + new[0],
+                              'replay_args': ['u5d', 'replay', json.dumps(w)]}})
+    return res
+
+
 def witness_u2(v, tier):
     out, err = _replay(['u2', 'find'])
     if out and out.get('found'):
@@ -668,10 +700,10 @@ PROPS = {
     },
     'C04': {
         'vx': ['U5', 'U7'],
-        'extra': [extra_u5_bounded('c04')],
+        'extra': [extra_u5_bounded('c04'), extra_c04_mirror],
         'witness': witness_u5('c04'),
         'technique': 'mirror lemma: the JSON and the CBOR copy of a duplicated pure helper meet the same Verus spec',
-        'level_text': 'Mirror obligations only: the duplicated occurrence->(min,max) statement of the array matcher in json.rs and in cbor.rs are both proved equal to the same spec function, hence to each other, for every occurrence value. Agreement of the two validators verdicts is not decided (relational property over two 4-6 kLoC visitors).',
+        'level_text': 'Mirror obligations only: the duplicated occurrence->(min,max) statement of the array matcher in json.rs and in cbor.rs are both proved equal to the same spec function, hence to each other, for every occurrence value. Agreement of the two validators verdicts cannot be decided deductively (relational property over two 4-6 kLoC visitors); bounded differential stand-ins run both validators on the same values (labelled bounded): the array matcher sweep and a ~320-schema x 12-value sweep, which found 182 disagreements recorded as known finding F21 (JSON `int` rejects 18446744073709551615 while CBOR accepts; CBOR `nint` accepts 0/5/10; JSON `uint` accepts -3).',
         'level_note': 'Trusted: as for C09. Everything else in the two validators is unverified.',
         'design_ref': 'DESIGN.md 4 U5',
         'scope': 'duplicated pure helper of the array matcher',
